@@ -41,7 +41,7 @@ func init() {
 		Explanation: "Applies to the exported Unmarshal functions and to the private functions they hand their input to. Guard facts are the branch conditions on the dominator chain, extended through tested flags/errors that were merged (single-exit style, inlined helpers) and through error-returning guard helpers; exits are the alternatives of the return statements. " +
 			"R1: every binary.BigEndian.UintN(x), constant index buf[c] and constant re-slicing of buf is dominated by facts implying that the bytes touched lie within len(buf). " +
 			"R2: a variable index buf[i] needs a lower bound >= 0 (loop variable from a constant, lengths) and facts implying i < len(buf) (i<len, or i!=len for a loop variable that provably never exceeds len); R1/R2 apply to every view of the buffer (windows, phi-merged windows, a shrinking cursor rest=rest[k:] that walks it), each access bounded by the length of the slice value it is made on. " +
-			"R3: a wire length (result of a varint/fixed decoder, also when kept in a local struct) reaches arithmetic, slice bounds, indices or make sizes only where guard facts bound it: an unsigned comparison against a len(buf)-derived operand, or sign test plus signed bound after the conversion; a window of t bytes is cut only after t was compared with what remains of the sliced value. " +
+			"R3: a wire length (result of a varint/fixed decoder, also when kept in a local struct) reaches arithmetic, slice bounds, indices or make sizes only where guard facts bound it: an unsigned comparison against a len(buf)-derived operand, or sign test plus signed bound after the conversion (the sign test may be made before the conversion: the unsigned value is compared with a constant the signed type can hold, and the signed bound may be tested on another evaluation of the same conversion); a window of t bytes is cut only after t was compared with what remains of the sliced value. " +
 			"R4: every failure exit reports 0 consumed bytes (or the count of the failing callee, 0 under its own R4). " +
 			"R5: a returned slice/string derives from a sub-slice of the input or from a copy (SliceCopy, make+copy) of one. " +
 			"R6: the consumed count of a success exit is a guarded constant, an expression the facts and loop invariants (loop variable <= len, len(cursor) <= len(buf) for a cursor only re-sliced without upper bound) place in [0,len(buf)], a callee count, the end offset of a window cut from buf under R3, or an external decoder's count under an n>0 guard. R3 also: a byte of the input used as a number (a one-byte length header) is a wire length where it bounds a slice. R7: private functions reached from the decoders (error constructors, formatters) index fixed-size tables in range, by interval evaluation of the index (constants, + - / by constants, widening conversions, bits.Len as a monotone function, refined by dominating comparisons with constants).",
@@ -612,7 +612,7 @@ func (c *Ctx) wireLengthTaint(fn *ssa.Function, buf ssa.Value, isDecoder map[*ss
 			}
 			op, x, y := cm.Op, cm.X, cm.Y
 			// normalise so that x is the tainted side
-			match := func(t ssa.Value) bool { return t == v || t == u }
+			match := func(t ssa.Value) bool { return t == v || t == u || sameConversionV(t, v) }
 			if !match(x) {
 				if !match(y) {
 					continue
@@ -625,9 +625,14 @@ func (c *Ctx) wireLengthTaint(fn *ssa.Function, buf ssa.Value, isDecoder map[*ss
 				if (op == token.LEQ || op == token.LSS || op == token.EQL) && lenDerived(y) {
 					upper, nonNeg = true, true
 				}
+				// u <= K for a constant K that the signed type of v can hold: the conversion keeps the value, so v >= 0
+				// (first half of the two-step guard `u > MaxInt || int(u) > rem`, v_codec_guard.go)
+				if (op == token.LEQ || op == token.LSS || op == token.EQL) && c.fitsSignedV(y, v, u) {
+					nonNeg = true
+				}
 				continue
 			}
-			if x == v && !isUnsigned(v.Type()) {
+			if (x == v || sameConversionV(x, v)) && !isUnsigned(v.Type()) {
 				if (op == token.LEQ || op == token.LSS) && lenDerived(y) {
 					upper = true
 				}
